@@ -989,6 +989,77 @@ pub open spec fn shape_ok(r: Option<BoundSet>, cs: Seq<KCmp>) -> bool {
     }
 }
 
+// ---- Seq-free form used by the exec-side shape contracts ----
+pub enum CSet { Zero, One(KCmp), Two(KCmp, KCmp) }
+pub open spec fn lc(c: KCmp) -> Cut { match c.op { Op::Ge => Cut::At(c.k, false), Op::Gt => Cut::At(c.k, true), Op::Eq => Cut::At(c.k, false), _ => Cut::NegInf } }
+pub open spec fn uc(c: KCmp) -> Cut { match c.op { Op::Le => Cut::At(c.k, true), Op::Lt => Cut::At(c.k, false), Op::Eq => Cut::At(c.k, true), _ => Cut::PosInf } }
+pub open spec fn cset_lo(c: CSet) -> Cut { match c { CSet::Zero => Cut::NegInf, CSet::One(a) => lc(a), CSet::Two(a, _) => lc(a) } }
+pub open spec fn cset_hi(c: CSet) -> Cut { match c { CSet::Zero => Cut::PosInf, CSet::One(a) => uc(a), CSet::Two(_, b) => uc(b) } }
+pub open spec fn cset_seq(c: CSet) -> Seq<KCmp> { match c { CSet::Zero => Seq::empty(), CSet::One(a) => s1(a), CSet::Two(a, b) => s2(a, b) } }
+pub open spec fn shape_ok_c(r: Option<BoundSet>, c: CSet) -> bool {
+    match r {
+        Some(bs) => bs_wf(bs) && cut_of(*bs.lower) == cset_lo(c) && cut_of(*bs.upper) == cset_hi(c),
+        None => cut_cmp(cset_lo(c), cset_hi(c)) != Ordering::Less,
+    }
+}
+pub open spec fn any_c() -> CSet { CSet::One(ge(k3(0, 0, 0))) }
+pub open spec fn null_c() -> CSet { CSet::One(lt(k4(0, 0, 0, pre0()))) }
+pub open spec fn npm_tilde_c(p: Partial) -> CSet {
+    let pre = p.pre_release@;
+    if xM(p) { any_c() }
+    else if xm(p) { CSet::Two(ge(k3(pM(p), 0, 0)), lt(k4(pM(p) + 1, 0, 0, pre0()))) }
+    else if xp(p) { CSet::Two(ge(k3(pM(p), pm(p), 0)), lt(k4(pM(p), pm(p) + 1, 0, pre0()))) }
+    else { CSet::Two(ge(k4(pM(p), pm(p), pp(p), pre)), lt(k4(pM(p), pm(p) + 1, 0, pre0()))) }
+}
+pub open spec fn npm_caret_c(p: Partial) -> CSet {
+    let pre = p.pre_release@;
+    if xM(p) { any_c() }
+    else if xm(p) { CSet::Two(ge(k3(pM(p), 0, 0)), lt(k4(pM(p) + 1, 0, 0, pre0()))) }
+    else if xp(p) { if pM(p) == 0 { CSet::Two(ge(k3(0, pm(p), 0)), lt(k4(0, pm(p) + 1, 0, pre0()))) } else { CSet::Two(ge(k3(pM(p), pm(p), 0)), lt(k4(pM(p) + 1, 0, 0, pre0()))) } }
+    else if pM(p) == 0 && pm(p) == 0 { CSet::Two(ge(k4(0, 0, pp(p), pre)), lt(k4(0, 0, pp(p) + 1, pre0()))) }
+    else if pM(p) == 0 { CSet::Two(ge(k4(0, pm(p), pp(p), pre)), lt(k4(0, pm(p) + 1, 0, pre0()))) }
+    else { CSet::Two(ge(k4(pM(p), pm(p), pp(p), pre)), lt(k4(pM(p) + 1, 0, 0, pre0()))) }
+}
+pub open spec fn npm_plain_c(p: Partial) -> CSet {
+    let pre = p.pre_release@;
+    if xM(p) { any_c() }
+    else if xm(p) { CSet::Two(ge(k3(pM(p), 0, 0)), lt(k4(pM(p) + 1, 0, 0, pre0()))) }
+    else if xp(p) { CSet::Two(ge(k3(pM(p), pm(p), 0)), lt(k4(pM(p), pm(p) + 1, 0, pre0()))) }
+    else { CSet::One(eqc(k4(pM(p), pm(p), pp(p), pre))) }
+}
+pub open spec fn npm_primitive_c(op: Operation, p: Partial) -> CSet {
+    let pre = p.pre_release@;
+    if xM(p) { match op { Operation::GreaterThan | Operation::LessThan => null_c(), _ => any_c() } }
+    else if xm(p) { match op {
+        Operation::GreaterThan => CSet::One(ge(k3(pM(p) + 1, 0, 0))),
+        Operation::GreaterThanEquals => CSet::One(ge(k3(pM(p), 0, 0))),
+        Operation::LessThan => CSet::One(lt(k4(pM(p), 0, 0, pre0()))),
+        Operation::LessThanEquals => CSet::One(lt(k4(pM(p) + 1, 0, 0, pre0()))),
+        Operation::Exact => CSet::Two(ge(k3(pM(p), 0, 0)), lt(k4(pM(p) + 1, 0, 0, pre0()))),
+    } }
+    else if xp(p) { match op {
+        Operation::GreaterThan => CSet::One(ge(k3(pM(p), pm(p) + 1, 0))),
+        Operation::GreaterThanEquals => CSet::One(ge(k3(pM(p), pm(p), 0))),
+        Operation::LessThan => CSet::One(lt(k4(pM(p), pm(p), 0, pre0()))),
+        Operation::LessThanEquals => CSet::One(lt(k4(pM(p), pm(p) + 1, 0, pre0()))),
+        Operation::Exact => CSet::Two(ge(k3(pM(p), pm(p), 0)), lt(k4(pM(p), pm(p) + 1, 0, pre0()))),
+    } }
+    else { let k = k4(pM(p), pm(p), pp(p), pre); match op {
+        Operation::GreaterThan => CSet::One(gt(k)), Operation::GreaterThanEquals => CSet::One(ge(k)), Operation::LessThan => CSet::One(lt(k)), Operation::LessThanEquals => CSet::One(le(k)), Operation::Exact => CSet::One(eqc(k)),
+    } }
+}
+pub open spec fn npm_hyphen_c(f: Partial, t: Partial) -> CSet {
+    match (npm_hyphen_from(f), npm_hyphen_to(t)) {
+        (Some(a), Some(b)) => CSet::Two(a, b), (Some(a), None) => CSet::One(a), (None, Some(b)) => CSet::One(b), (None, None) => CSet::Zero,
+    }
+}
+/// same admitted versions (components within MAX_SAFE_INTEGER) although the bounds are written differently
+pub open spec fn shape_equiv_c(r: Option<BoundSet>, c: CSet) -> bool {
+    r matches Some(bs) && bs_wf(bs) && forall|v: VKey| #![trigger within(bs, v)] wfk(v) ==>
+        (above(cut_of(*bs.lower), v) <==> above(cset_lo(c), v)) && (below(cut_of(*bs.upper), v) <==> below(cset_hi(c), v))
+        && (within(bs, v) ==> (gate(bs, v) <==> set_gate(cset_seq(c), v)))
+}
+
 // ===================== proof side: intervals represent npm comparator lists =====================
 pub proof fn lemma_set_ok_concat(a: Seq<KCmp>, b: Seq<KCmp>, v: VKey)
     ensures set_ok(a + b, v) == (set_ok(a, v) && set_ok(b, v))
@@ -1802,6 +1873,680 @@ proof {
         verif_std_filter_min(versions, |v: &&Version| -> (b: bool) requires rwf(*self) ensures b == rsat(*self, key(**v)) { self.satisfies(v) })
     }
 }
+impl FromSpecImpl<(u64, u64, u64)> for Version { open spec fn obeys_from_spec() -> bool { false } open spec fn from_spec(v: (u64, u64, u64)) -> Self { arbitrary() } }
+impl FromSpecImpl<(u64, u64, u64, u64)> for Version { open spec fn obeys_from_spec() -> bool { false } open spec fn from_spec(v: (u64, u64, u64, u64)) -> Self { arbitrary() } }
+impl FromSpecImpl<Partial> for Version { open spec fn obeys_from_spec() -> bool { false } open spec fn from_spec(v: Partial) -> Self { arbitrary() } }
+
+
+            impl ::std::convert::From<(u64, u64, u64)> for Version {
+                fn from(arg: (u64, u64, u64)) -> (r: Self)
+ ensures key(r) == k3(arg.0 as int, arg.1 as int, arg.2 as int), r.build@.len() == 0
+ {
+ let (major, minor, patch) = arg;
+                    Version {
+                        major: major as u64,
+                        minor: minor as u64,
+                        patch: patch as u64,
+                        build: Vec::new(),
+                        pre_release: Vec::new(),
+                    }
+                }
+            }
+
+            impl ::std::convert::From<(u64, u64, u64, u64)> for Version {
+                fn from(arg: (u64, u64, u64, u64)) -> (r: Self)
+ ensures key(r).major == arg.0, key(r).minor == arg.1, key(r).patch == arg.2, key(r).pre =~= seq![Identifier::Numeric(arg.3)], r.build@.len() == 0
+ {
+ let (major, minor, patch, pre_release) = arg;
+                    Version {
+                        major: major as u64,
+                        minor: minor as u64,
+                        patch: patch as u64,
+                        build: Vec::new(),
+                        pre_release: vec![Identifier::Numeric(pre_release as u64)],
+                    }
+                }
+            }
+        
+impl From<Partial> for Version {
+    fn from(partial: Partial) -> (r: Self)
+    ensures r.major == (match partial.major { Some(x) => x, None => 0 }), r.minor == (match partial.minor { Some(x) => x, None => 0 }), r.patch == (match partial.patch { Some(x) => x, None => 0 }), r.pre_release == partial.pre_release, r.build == partial.build
+{
+        Version {
+            major: partial.major.unwrap_or(0),
+            minor: partial.minor.unwrap_or(0),
+            patch: partial.patch.unwrap_or(0),
+            pre_release: partial.pre_release,
+            build: partial.build,
+        }
+    }
+}
+fn caret_desugar(parsed: Partial) -> (r: Option<BoundSet>)
+    requires wf_partial(parsed),
+    ensures
+        parsed.major is None && parsed.minor is None && parsed.patch is None && parsed.pre_release@.len() == 0 ==> shape_ok_c(r, npm_caret_c(parsed)),  // caret#N.N.N
+        parsed.major is None && parsed.minor is None && parsed.patch is None && parsed.pre_release@.len() > 0 ==> shape_ok_c(r, npm_caret_c(parsed)),  // caret#N.N.N+pre
+        parsed.major is None && parsed.minor is None && parsed.patch is Some && parsed.pre_release@.len() == 0 ==> shape_ok_c(r, npm_caret_c(parsed)),  // caret#N.N.S
+        parsed.major is None && parsed.minor is None && parsed.patch is Some && parsed.pre_release@.len() > 0 ==> shape_ok_c(r, npm_caret_c(parsed)),  // caret#N.N.S+pre
+        parsed.major is None && parsed.minor is Some && parsed.patch is None && parsed.pre_release@.len() == 0 ==> shape_ok_c(r, npm_caret_c(parsed)),  // caret#N.S.N
+        parsed.major is None && parsed.minor is Some && parsed.patch is None && parsed.pre_release@.len() > 0 ==> shape_ok_c(r, npm_caret_c(parsed)),  // caret#N.S.N+pre
+        parsed.major is None && parsed.minor is Some && parsed.patch is Some && parsed.pre_release@.len() == 0 ==> shape_ok_c(r, npm_caret_c(parsed)),  // caret#N.S.S
+        parsed.major is None && parsed.minor is Some && parsed.patch is Some && parsed.pre_release@.len() > 0 ==> shape_ok_c(r, npm_caret_c(parsed)),  // caret#N.S.S+pre
+        parsed.major is Some && parsed.minor is None && parsed.patch is None && parsed.pre_release@.len() == 0 && pM(parsed) == 0 ==> shape_ok_c(r, npm_caret_c(parsed)),  // caret#0:S.N.N
+        parsed.major is Some && parsed.minor is None && parsed.patch is None && parsed.pre_release@.len() == 0 && pM(parsed) != 0 ==> shape_ok_c(r, npm_caret_c(parsed)),  // caret#+:S.N.N
+        parsed.major is Some && parsed.minor is None && parsed.patch is None && parsed.pre_release@.len() > 0 && pM(parsed) == 0 ==> shape_ok_c(r, npm_caret_c(parsed)),  // caret#0:S.N.N+pre
+        parsed.major is Some && parsed.minor is None && parsed.patch is None && parsed.pre_release@.len() > 0 && pM(parsed) != 0 ==> shape_ok_c(r, npm_caret_c(parsed)),  // caret#+:S.N.N+pre
+        parsed.major is Some && parsed.minor is None && parsed.patch is Some && parsed.pre_release@.len() == 0 && pM(parsed) == 0 ==> shape_ok_c(r, npm_caret_c(parsed)),  // caret#0:S.N.S
+        parsed.major is Some && parsed.minor is None && parsed.patch is Some && parsed.pre_release@.len() == 0 && pM(parsed) != 0 ==> shape_ok_c(r, npm_caret_c(parsed)),  // caret#+:S.N.S
+        parsed.major is Some && parsed.minor is None && parsed.patch is Some && parsed.pre_release@.len() > 0 && pM(parsed) == 0 ==> shape_ok_c(r, npm_caret_c(parsed)),  // caret#0:S.N.S+pre
+        parsed.major is Some && parsed.minor is None && parsed.patch is Some && parsed.pre_release@.len() > 0 && pM(parsed) != 0 ==> shape_ok_c(r, npm_caret_c(parsed)),  // caret#+:S.N.S+pre
+        parsed.major is Some && parsed.minor is Some && parsed.patch is None && parsed.pre_release@.len() == 0 && pM(parsed) == 0 ==> shape_ok_c(r, npm_caret_c(parsed)),  // caret#0:S.S.N
+        parsed.major is Some && parsed.minor is Some && parsed.patch is None && parsed.pre_release@.len() == 0 && pM(parsed) != 0 ==> shape_ok_c(r, npm_caret_c(parsed)),  // caret#+:S.S.N
+        parsed.major is Some && parsed.minor is Some && parsed.patch is None && parsed.pre_release@.len() > 0 && pM(parsed) == 0 ==> shape_ok_c(r, npm_caret_c(parsed)),  // caret#0:S.S.N+pre
+        parsed.major is Some && parsed.minor is Some && parsed.patch is None && parsed.pre_release@.len() > 0 && pM(parsed) != 0 ==> shape_ok_c(r, npm_caret_c(parsed)),  // caret#+:S.S.N+pre
+        parsed.major is Some && parsed.minor is Some && parsed.patch is Some && parsed.pre_release@.len() == 0 && pM(parsed) == 0 ==> shape_ok_c(r, npm_caret_c(parsed)),  // caret#0:S.S.S
+        parsed.major is Some && parsed.minor is Some && parsed.patch is Some && parsed.pre_release@.len() == 0 && pM(parsed) != 0 ==> shape_ok_c(r, npm_caret_c(parsed)),  // caret#+:S.S.S
+        parsed.major is Some && parsed.minor is Some && parsed.patch is Some && parsed.pre_release@.len() > 0 && pM(parsed) == 0 ==> shape_ok_c(r, npm_caret_c(parsed)),  // caret#0:S.S.S+pre
+        parsed.major is Some && parsed.minor is Some && parsed.patch is Some && parsed.pre_release@.len() > 0 && pM(parsed) != 0 ==> shape_ok_c(r, npm_caret_c(parsed)),  // caret#+:S.S.S+pre
+{
+ broadcast use group_k_order, group_sets;
+ proof { reveal(cut_cmp);
+        assert forall|s: Seq<Identifier>| #![trigger s.len()] s.len() == 1 && s[0] == Identifier::Numeric(0) implies s == pre0() by { assert(s =~= pre0()); }
+        assert forall|s: Seq<Identifier>| #![trigger s.len()] s.len() == 0 implies s == Seq::<Identifier>::empty() by { assert(s =~= Seq::<Identifier>::empty()); }
+ }
+    match parsed {
+            Partial {
+                major: Some(0),
+                minor: None,
+                patch: None,
+                ..
+            } => BoundSet::at_most(Predicate::Excluding((1, 0, 0, 0).into())),
+            Partial {
+                major: Some(0),
+                minor: Some(minor),
+                patch: None,
+                ..
+            } => BoundSet::new(
+                Bound::Lower(Predicate::Including((0, minor, 0).into())),
+                Bound::Upper(Predicate::Excluding((0, minor + 1, 0, 0).into())),
+            ),
+            // TODO: can be compressed?
+            Partial {
+                major: Some(major),
+                minor: None,
+                patch: None,
+                ..
+            } => BoundSet::new(
+                Bound::Lower(Predicate::Including((major, 0, 0).into())),
+                Bound::Upper(Predicate::Excluding((major + 1, 0, 0, 0).into())),
+            ),
+            Partial {
+                major: Some(major),
+                minor: Some(minor),
+                patch: None,
+                ..
+            } => BoundSet::new(
+                Bound::Lower(Predicate::Including((major, minor, 0).into())),
+                Bound::Upper(Predicate::Excluding((major + 1, 0, 0, 0).into())),
+            ),
+            Partial {
+                major: Some(major),
+                minor: Some(minor),
+                patch: Some(patch),
+                pre_release,
+                ..
+            } => BoundSet::new(
+                Bound::Lower(Predicate::Including(Version {
+                    major,
+                    minor,
+                    patch,
+                    pre_release,
+                    build: vec![],
+                })),
+                Bound::Upper(Predicate::Excluding(match (major, minor, patch) {
+                    (0, 0, n) => Version::from((0, 0, n + 1, 0)),
+                    (0, n, _) => Version::from((0, n + 1, 0, 0)),
+                    (n, _, _) => Version::from((n + 1, 0, 0, 0)),
+                })),
+            ),
+            _ => None,
+        }
+}
+
+fn primitive_desugar(parsed: (Operation, Partial)) -> (r: Option<BoundSet>)
+    requires wf_partial(parsed.1),
+    ensures
+        parsed.0 == Operation::Exact && parsed.1.major is None && parsed.1.minor is None && parsed.1.patch is None && parsed.1.pre_release@.len() == 0 ==> shape_ok_c(r, npm_primitive_c(parsed.0, parsed.1)),  // Exact#N.N.N
+        parsed.0 == Operation::Exact && parsed.1.major is None && parsed.1.minor is None && parsed.1.patch is None && parsed.1.pre_release@.len() > 0 ==> shape_ok_c(r, npm_primitive_c(parsed.0, parsed.1)),  // Exact#N.N.N+pre
+        parsed.0 == Operation::Exact && parsed.1.major is None && parsed.1.minor is None && parsed.1.patch is Some && parsed.1.pre_release@.len() == 0 ==> shape_ok_c(r, npm_primitive_c(parsed.0, parsed.1)),  // Exact#N.N.S
+        parsed.0 == Operation::Exact && parsed.1.major is None && parsed.1.minor is None && parsed.1.patch is Some && parsed.1.pre_release@.len() > 0 ==> shape_ok_c(r, npm_primitive_c(parsed.0, parsed.1)),  // Exact#N.N.S+pre
+        parsed.0 == Operation::Exact && parsed.1.major is None && parsed.1.minor is Some && parsed.1.patch is None && parsed.1.pre_release@.len() == 0 ==> shape_ok_c(r, npm_primitive_c(parsed.0, parsed.1)),  // Exact#N.S.N
+        parsed.0 == Operation::Exact && parsed.1.major is None && parsed.1.minor is Some && parsed.1.patch is None && parsed.1.pre_release@.len() > 0 ==> shape_ok_c(r, npm_primitive_c(parsed.0, parsed.1)),  // Exact#N.S.N+pre
+        parsed.0 == Operation::Exact && parsed.1.major is None && parsed.1.minor is Some && parsed.1.patch is Some && parsed.1.pre_release@.len() == 0 ==> shape_ok_c(r, npm_primitive_c(parsed.0, parsed.1)),  // Exact#N.S.S
+        parsed.0 == Operation::Exact && parsed.1.major is None && parsed.1.minor is Some && parsed.1.patch is Some && parsed.1.pre_release@.len() > 0 ==> shape_ok_c(r, npm_primitive_c(parsed.0, parsed.1)),  // Exact#N.S.S+pre
+        parsed.0 == Operation::Exact && parsed.1.major is Some && parsed.1.minor is None && parsed.1.patch is None && parsed.1.pre_release@.len() == 0 ==> shape_ok_c(r, npm_primitive_c(parsed.0, parsed.1)),  // Exact#S.N.N
+        parsed.0 == Operation::Exact && parsed.1.major is Some && parsed.1.minor is None && parsed.1.patch is None && parsed.1.pre_release@.len() > 0 ==> shape_ok_c(r, npm_primitive_c(parsed.0, parsed.1)),  // Exact#S.N.N+pre
+        parsed.0 == Operation::Exact && parsed.1.major is Some && parsed.1.minor is None && parsed.1.patch is Some && parsed.1.pre_release@.len() == 0 ==> shape_ok_c(r, npm_primitive_c(parsed.0, parsed.1)),  // Exact#S.N.S
+        parsed.0 == Operation::Exact && parsed.1.major is Some && parsed.1.minor is None && parsed.1.patch is Some && parsed.1.pre_release@.len() > 0 ==> shape_ok_c(r, npm_primitive_c(parsed.0, parsed.1)),  // Exact#S.N.S+pre
+        parsed.0 == Operation::Exact && parsed.1.major is Some && parsed.1.minor is Some && parsed.1.patch is None && parsed.1.pre_release@.len() == 0 ==> shape_ok_c(r, npm_primitive_c(parsed.0, parsed.1)),  // Exact#S.S.N
+        parsed.0 == Operation::Exact && parsed.1.major is Some && parsed.1.minor is Some && parsed.1.patch is None && parsed.1.pre_release@.len() > 0 ==> shape_ok_c(r, npm_primitive_c(parsed.0, parsed.1)),  // Exact#S.S.N+pre
+        parsed.0 == Operation::Exact && parsed.1.major is Some && parsed.1.minor is Some && parsed.1.patch is Some && parsed.1.pre_release@.len() == 0 ==> shape_ok_c(r, npm_primitive_c(parsed.0, parsed.1)),  // Exact#S.S.S
+        parsed.0 == Operation::Exact && parsed.1.major is Some && parsed.1.minor is Some && parsed.1.patch is Some && parsed.1.pre_release@.len() > 0 ==> shape_ok_c(r, npm_primitive_c(parsed.0, parsed.1)),  // Exact#S.S.S+pre
+        parsed.0 == Operation::GreaterThan && parsed.1.major is None && parsed.1.minor is None && parsed.1.patch is None && parsed.1.pre_release@.len() == 0 ==> shape_ok_c(r, npm_primitive_c(parsed.0, parsed.1)),  // GreaterThan#N.N.N
+        parsed.0 == Operation::GreaterThan && parsed.1.major is None && parsed.1.minor is None && parsed.1.patch is None && parsed.1.pre_release@.len() > 0 ==> shape_ok_c(r, npm_primitive_c(parsed.0, parsed.1)),  // GreaterThan#N.N.N+pre
+        parsed.0 == Operation::GreaterThan && parsed.1.major is None && parsed.1.minor is None && parsed.1.patch is Some && parsed.1.pre_release@.len() == 0 ==> shape_ok_c(r, npm_primitive_c(parsed.0, parsed.1)),  // GreaterThan#N.N.S
+        parsed.0 == Operation::GreaterThan && parsed.1.major is None && parsed.1.minor is None && parsed.1.patch is Some && parsed.1.pre_release@.len() > 0 ==> shape_ok_c(r, npm_primitive_c(parsed.0, parsed.1)),  // GreaterThan#N.N.S+pre
+        parsed.0 == Operation::GreaterThan && parsed.1.major is None && parsed.1.minor is Some && parsed.1.patch is None && parsed.1.pre_release@.len() == 0 ==> shape_ok_c(r, npm_primitive_c(parsed.0, parsed.1)),  // GreaterThan#N.S.N
+        parsed.0 == Operation::GreaterThan && parsed.1.major is None && parsed.1.minor is Some && parsed.1.patch is None && parsed.1.pre_release@.len() > 0 ==> shape_ok_c(r, npm_primitive_c(parsed.0, parsed.1)),  // GreaterThan#N.S.N+pre
+        parsed.0 == Operation::GreaterThan && parsed.1.major is None && parsed.1.minor is Some && parsed.1.patch is Some && parsed.1.pre_release@.len() == 0 ==> shape_ok_c(r, npm_primitive_c(parsed.0, parsed.1)),  // GreaterThan#N.S.S
+        parsed.0 == Operation::GreaterThan && parsed.1.major is None && parsed.1.minor is Some && parsed.1.patch is Some && parsed.1.pre_release@.len() > 0 ==> shape_ok_c(r, npm_primitive_c(parsed.0, parsed.1)),  // GreaterThan#N.S.S+pre
+        parsed.0 == Operation::GreaterThan && parsed.1.major is Some && parsed.1.minor is None && parsed.1.patch is None && parsed.1.pre_release@.len() == 0 ==> shape_ok_c(r, npm_primitive_c(parsed.0, parsed.1)),  // GreaterThan#S.N.N
+        parsed.0 == Operation::GreaterThan && parsed.1.major is Some && parsed.1.minor is None && parsed.1.patch is None && parsed.1.pre_release@.len() > 0 ==> shape_ok_c(r, npm_primitive_c(parsed.0, parsed.1)),  // GreaterThan#S.N.N+pre
+        parsed.0 == Operation::GreaterThan && parsed.1.major is Some && parsed.1.minor is None && parsed.1.patch is Some && parsed.1.pre_release@.len() == 0 ==> shape_ok_c(r, npm_primitive_c(parsed.0, parsed.1)),  // GreaterThan#S.N.S
+        parsed.0 == Operation::GreaterThan && parsed.1.major is Some && parsed.1.minor is None && parsed.1.patch is Some && parsed.1.pre_release@.len() > 0 ==> shape_ok_c(r, npm_primitive_c(parsed.0, parsed.1)),  // GreaterThan#S.N.S+pre
+        parsed.0 == Operation::GreaterThan && parsed.1.major is Some && parsed.1.minor is Some && parsed.1.patch is None && parsed.1.pre_release@.len() == 0 ==> shape_ok_c(r, npm_primitive_c(parsed.0, parsed.1)),  // GreaterThan#S.S.N
+        parsed.0 == Operation::GreaterThan && parsed.1.major is Some && parsed.1.minor is Some && parsed.1.patch is None && parsed.1.pre_release@.len() > 0 ==> shape_ok_c(r, npm_primitive_c(parsed.0, parsed.1)),  // GreaterThan#S.S.N+pre
+        parsed.0 == Operation::GreaterThan && parsed.1.major is Some && parsed.1.minor is Some && parsed.1.patch is Some && parsed.1.pre_release@.len() == 0 ==> shape_ok_c(r, npm_primitive_c(parsed.0, parsed.1)),  // GreaterThan#S.S.S
+        parsed.0 == Operation::GreaterThan && parsed.1.major is Some && parsed.1.minor is Some && parsed.1.patch is Some && parsed.1.pre_release@.len() > 0 ==> shape_ok_c(r, npm_primitive_c(parsed.0, parsed.1)),  // GreaterThan#S.S.S+pre
+        parsed.0 == Operation::GreaterThanEquals && parsed.1.major is None && parsed.1.minor is None && parsed.1.patch is None && parsed.1.pre_release@.len() == 0 ==> shape_ok_c(r, npm_primitive_c(parsed.0, parsed.1)),  // GreaterThanEquals#N.N.N
+        parsed.0 == Operation::GreaterThanEquals && parsed.1.major is None && parsed.1.minor is None && parsed.1.patch is None && parsed.1.pre_release@.len() > 0 ==> shape_ok_c(r, npm_primitive_c(parsed.0, parsed.1)),  // GreaterThanEquals#N.N.N+pre
+        parsed.0 == Operation::GreaterThanEquals && parsed.1.major is None && parsed.1.minor is None && parsed.1.patch is Some && parsed.1.pre_release@.len() == 0 ==> shape_ok_c(r, npm_primitive_c(parsed.0, parsed.1)),  // GreaterThanEquals#N.N.S
+        parsed.0 == Operation::GreaterThanEquals && parsed.1.major is None && parsed.1.minor is None && parsed.1.patch is Some && parsed.1.pre_release@.len() > 0 ==> shape_ok_c(r, npm_primitive_c(parsed.0, parsed.1)),  // GreaterThanEquals#N.N.S+pre
+        parsed.0 == Operation::GreaterThanEquals && parsed.1.major is None && parsed.1.minor is Some && parsed.1.patch is None && parsed.1.pre_release@.len() == 0 ==> shape_ok_c(r, npm_primitive_c(parsed.0, parsed.1)),  // GreaterThanEquals#N.S.N
+        parsed.0 == Operation::GreaterThanEquals && parsed.1.major is None && parsed.1.minor is Some && parsed.1.patch is None && parsed.1.pre_release@.len() > 0 ==> shape_ok_c(r, npm_primitive_c(parsed.0, parsed.1)),  // GreaterThanEquals#N.S.N+pre
+        parsed.0 == Operation::GreaterThanEquals && parsed.1.major is None && parsed.1.minor is Some && parsed.1.patch is Some && parsed.1.pre_release@.len() == 0 ==> shape_ok_c(r, npm_primitive_c(parsed.0, parsed.1)),  // GreaterThanEquals#N.S.S
+        parsed.0 == Operation::GreaterThanEquals && parsed.1.major is None && parsed.1.minor is Some && parsed.1.patch is Some && parsed.1.pre_release@.len() > 0 ==> shape_ok_c(r, npm_primitive_c(parsed.0, parsed.1)),  // GreaterThanEquals#N.S.S+pre
+        parsed.0 == Operation::GreaterThanEquals && parsed.1.major is Some && parsed.1.minor is None && parsed.1.patch is None && parsed.1.pre_release@.len() == 0 ==> shape_ok_c(r, npm_primitive_c(parsed.0, parsed.1)),  // GreaterThanEquals#S.N.N
+        parsed.0 == Operation::GreaterThanEquals && parsed.1.major is Some && parsed.1.minor is None && parsed.1.patch is None && parsed.1.pre_release@.len() > 0 ==> shape_ok_c(r, npm_primitive_c(parsed.0, parsed.1)),  // GreaterThanEquals#S.N.N+pre
+        parsed.0 == Operation::GreaterThanEquals && parsed.1.major is Some && parsed.1.minor is None && parsed.1.patch is Some && parsed.1.pre_release@.len() == 0 ==> shape_ok_c(r, npm_primitive_c(parsed.0, parsed.1)),  // GreaterThanEquals#S.N.S
+        parsed.0 == Operation::GreaterThanEquals && parsed.1.major is Some && parsed.1.minor is None && parsed.1.patch is Some && parsed.1.pre_release@.len() > 0 ==> shape_ok_c(r, npm_primitive_c(parsed.0, parsed.1)),  // GreaterThanEquals#S.N.S+pre
+        parsed.0 == Operation::GreaterThanEquals && parsed.1.major is Some && parsed.1.minor is Some && parsed.1.patch is None && parsed.1.pre_release@.len() == 0 ==> shape_ok_c(r, npm_primitive_c(parsed.0, parsed.1)),  // GreaterThanEquals#S.S.N
+        parsed.0 == Operation::GreaterThanEquals && parsed.1.major is Some && parsed.1.minor is Some && parsed.1.patch is None && parsed.1.pre_release@.len() > 0 ==> shape_ok_c(r, npm_primitive_c(parsed.0, parsed.1)),  // GreaterThanEquals#S.S.N+pre
+        parsed.0 == Operation::GreaterThanEquals && parsed.1.major is Some && parsed.1.minor is Some && parsed.1.patch is Some && parsed.1.pre_release@.len() == 0 ==> shape_ok_c(r, npm_primitive_c(parsed.0, parsed.1)),  // GreaterThanEquals#S.S.S
+        parsed.0 == Operation::GreaterThanEquals && parsed.1.major is Some && parsed.1.minor is Some && parsed.1.patch is Some && parsed.1.pre_release@.len() > 0 ==> shape_ok_c(r, npm_primitive_c(parsed.0, parsed.1)),  // GreaterThanEquals#S.S.S+pre
+        parsed.0 == Operation::LessThan && parsed.1.major is None && parsed.1.minor is None && parsed.1.patch is None && parsed.1.pre_release@.len() == 0 ==> shape_ok_c(r, npm_primitive_c(parsed.0, parsed.1)),  // LessThan#N.N.N
+        parsed.0 == Operation::LessThan && parsed.1.major is None && parsed.1.minor is None && parsed.1.patch is None && parsed.1.pre_release@.len() > 0 ==> shape_ok_c(r, npm_primitive_c(parsed.0, parsed.1)),  // LessThan#N.N.N+pre
+        parsed.0 == Operation::LessThan && parsed.1.major is None && parsed.1.minor is None && parsed.1.patch is Some && parsed.1.pre_release@.len() == 0 ==> shape_ok_c(r, npm_primitive_c(parsed.0, parsed.1)),  // LessThan#N.N.S
+        parsed.0 == Operation::LessThan && parsed.1.major is None && parsed.1.minor is None && parsed.1.patch is Some && parsed.1.pre_release@.len() > 0 ==> shape_ok_c(r, npm_primitive_c(parsed.0, parsed.1)),  // LessThan#N.N.S+pre
+        parsed.0 == Operation::LessThan && parsed.1.major is None && parsed.1.minor is Some && parsed.1.patch is None && parsed.1.pre_release@.len() == 0 ==> shape_ok_c(r, npm_primitive_c(parsed.0, parsed.1)),  // LessThan#N.S.N
+        parsed.0 == Operation::LessThan && parsed.1.major is None && parsed.1.minor is Some && parsed.1.patch is None && parsed.1.pre_release@.len() > 0 ==> shape_ok_c(r, npm_primitive_c(parsed.0, parsed.1)),  // LessThan#N.S.N+pre
+        parsed.0 == Operation::LessThan && parsed.1.major is None && parsed.1.minor is Some && parsed.1.patch is Some && parsed.1.pre_release@.len() == 0 ==> shape_ok_c(r, npm_primitive_c(parsed.0, parsed.1)),  // LessThan#N.S.S
+        parsed.0 == Operation::LessThan && parsed.1.major is None && parsed.1.minor is Some && parsed.1.patch is Some && parsed.1.pre_release@.len() > 0 ==> shape_ok_c(r, npm_primitive_c(parsed.0, parsed.1)),  // LessThan#N.S.S+pre
+        parsed.0 == Operation::LessThan && parsed.1.major is Some && parsed.1.minor is None && parsed.1.patch is None && parsed.1.pre_release@.len() == 0 ==> shape_ok_c(r, npm_primitive_c(parsed.0, parsed.1)),  // LessThan#S.N.N
+        parsed.0 == Operation::LessThan && parsed.1.major is Some && parsed.1.minor is None && parsed.1.patch is None && parsed.1.pre_release@.len() > 0 ==> shape_ok_c(r, npm_primitive_c(parsed.0, parsed.1)),  // LessThan#S.N.N+pre
+        parsed.0 == Operation::LessThan && parsed.1.major is Some && parsed.1.minor is None && parsed.1.patch is Some && parsed.1.pre_release@.len() == 0 ==> shape_ok_c(r, npm_primitive_c(parsed.0, parsed.1)),  // LessThan#S.N.S
+        parsed.0 == Operation::LessThan && parsed.1.major is Some && parsed.1.minor is None && parsed.1.patch is Some && parsed.1.pre_release@.len() > 0 ==> shape_ok_c(r, npm_primitive_c(parsed.0, parsed.1)),  // LessThan#S.N.S+pre
+        parsed.0 == Operation::LessThan && parsed.1.major is Some && parsed.1.minor is Some && parsed.1.patch is None && parsed.1.pre_release@.len() == 0 ==> shape_ok_c(r, npm_primitive_c(parsed.0, parsed.1)),  // LessThan#S.S.N
+        parsed.0 == Operation::LessThan && parsed.1.major is Some && parsed.1.minor is Some && parsed.1.patch is None && parsed.1.pre_release@.len() > 0 ==> shape_ok_c(r, npm_primitive_c(parsed.0, parsed.1)),  // LessThan#S.S.N+pre
+        parsed.0 == Operation::LessThan && parsed.1.major is Some && parsed.1.minor is Some && parsed.1.patch is Some && parsed.1.pre_release@.len() == 0 ==> shape_ok_c(r, npm_primitive_c(parsed.0, parsed.1)),  // LessThan#S.S.S
+        parsed.0 == Operation::LessThan && parsed.1.major is Some && parsed.1.minor is Some && parsed.1.patch is Some && parsed.1.pre_release@.len() > 0 ==> shape_ok_c(r, npm_primitive_c(parsed.0, parsed.1)),  // LessThan#S.S.S+pre
+        parsed.0 == Operation::LessThanEquals && parsed.1.major is None && parsed.1.minor is None && parsed.1.patch is None && parsed.1.pre_release@.len() == 0 ==> shape_ok_c(r, npm_primitive_c(parsed.0, parsed.1)),  // LessThanEquals#N.N.N
+        parsed.0 == Operation::LessThanEquals && parsed.1.major is None && parsed.1.minor is None && parsed.1.patch is None && parsed.1.pre_release@.len() > 0 ==> shape_ok_c(r, npm_primitive_c(parsed.0, parsed.1)),  // LessThanEquals#N.N.N+pre
+        parsed.0 == Operation::LessThanEquals && parsed.1.major is None && parsed.1.minor is None && parsed.1.patch is Some && parsed.1.pre_release@.len() == 0 ==> shape_ok_c(r, npm_primitive_c(parsed.0, parsed.1)),  // LessThanEquals#N.N.S
+        parsed.0 == Operation::LessThanEquals && parsed.1.major is None && parsed.1.minor is None && parsed.1.patch is Some && parsed.1.pre_release@.len() > 0 ==> shape_ok_c(r, npm_primitive_c(parsed.0, parsed.1)),  // LessThanEquals#N.N.S+pre
+        parsed.0 == Operation::LessThanEquals && parsed.1.major is None && parsed.1.minor is Some && parsed.1.patch is None && parsed.1.pre_release@.len() == 0 ==> shape_ok_c(r, npm_primitive_c(parsed.0, parsed.1)),  // LessThanEquals#N.S.N
+        parsed.0 == Operation::LessThanEquals && parsed.1.major is None && parsed.1.minor is Some && parsed.1.patch is None && parsed.1.pre_release@.len() > 0 ==> shape_ok_c(r, npm_primitive_c(parsed.0, parsed.1)),  // LessThanEquals#N.S.N+pre
+        parsed.0 == Operation::LessThanEquals && parsed.1.major is None && parsed.1.minor is Some && parsed.1.patch is Some && parsed.1.pre_release@.len() == 0 ==> shape_ok_c(r, npm_primitive_c(parsed.0, parsed.1)),  // LessThanEquals#N.S.S
+        parsed.0 == Operation::LessThanEquals && parsed.1.major is None && parsed.1.minor is Some && parsed.1.patch is Some && parsed.1.pre_release@.len() > 0 ==> shape_ok_c(r, npm_primitive_c(parsed.0, parsed.1)),  // LessThanEquals#N.S.S+pre
+        parsed.0 == Operation::LessThanEquals && parsed.1.major is Some && parsed.1.minor is None && parsed.1.patch is None && parsed.1.pre_release@.len() == 0 ==> shape_equiv_c(r, npm_primitive_c(parsed.0, parsed.1)),  // LessThanEquals#S.N.N
+        parsed.0 == Operation::LessThanEquals && parsed.1.major is Some && parsed.1.minor is None && parsed.1.patch is None && parsed.1.pre_release@.len() > 0 ==> shape_equiv_c(r, npm_primitive_c(parsed.0, parsed.1)),  // LessThanEquals#S.N.N+pre
+        parsed.0 == Operation::LessThanEquals && parsed.1.major is Some && parsed.1.minor is None && parsed.1.patch is Some && parsed.1.pre_release@.len() == 0 ==> shape_equiv_c(r, npm_primitive_c(parsed.0, parsed.1)),  // LessThanEquals#S.N.S
+        parsed.0 == Operation::LessThanEquals && parsed.1.major is Some && parsed.1.minor is None && parsed.1.patch is Some && parsed.1.pre_release@.len() > 0 ==> shape_equiv_c(r, npm_primitive_c(parsed.0, parsed.1)),  // LessThanEquals#S.N.S+pre
+        parsed.0 == Operation::LessThanEquals && parsed.1.major is Some && parsed.1.minor is Some && parsed.1.patch is None && parsed.1.pre_release@.len() == 0 ==> shape_equiv_c(r, npm_primitive_c(parsed.0, parsed.1)),  // LessThanEquals#S.S.N
+        parsed.0 == Operation::LessThanEquals && parsed.1.major is Some && parsed.1.minor is Some && parsed.1.patch is None && parsed.1.pre_release@.len() > 0 ==> shape_equiv_c(r, npm_primitive_c(parsed.0, parsed.1)),  // LessThanEquals#S.S.N+pre
+        parsed.0 == Operation::LessThanEquals && parsed.1.major is Some && parsed.1.minor is Some && parsed.1.patch is Some && parsed.1.pre_release@.len() == 0 ==> shape_ok_c(r, npm_primitive_c(parsed.0, parsed.1)),  // LessThanEquals#S.S.S
+        parsed.0 == Operation::LessThanEquals && parsed.1.major is Some && parsed.1.minor is Some && parsed.1.patch is Some && parsed.1.pre_release@.len() > 0 ==> shape_ok_c(r, npm_primitive_c(parsed.0, parsed.1)),  // LessThanEquals#S.S.S+pre
+{
+ broadcast use group_k_order, group_sets;
+ proof { reveal(cut_cmp);
+        assert forall|s: Seq<Identifier>| #![trigger s.len()] s.len() == 1 && s[0] == Identifier::Numeric(0) implies s == pre0() by { assert(s =~= pre0()); }
+        assert forall|s: Seq<Identifier>| #![trigger s.len()] s.len() == 0 implies s == Seq::<Identifier>::empty() by { assert(s =~= Seq::<Identifier>::empty()); }
+ }
+    use Operation::*;
+match parsed {
+            (GreaterThanEquals, partial) => {
+                BoundSet::at_least(Predicate::Including(partial.into()))
+            }
+            (
+                GreaterThan,
+                Partial {
+                    major: Some(major),
+                    minor: Some(minor),
+                    patch: None,
+                    ..
+                },
+            ) => BoundSet::at_least(Predicate::Including((major, minor + 1, 0).into())),
+            (
+                GreaterThan,
+                Partial {
+                    major: Some(major),
+                    minor: None,
+                    patch: None,
+                    ..
+                },
+            ) => BoundSet::at_least(Predicate::Including((major + 1, 0, 0).into())),
+            (GreaterThan, partial) => BoundSet::at_least(Predicate::Excluding(partial.into())),
+            (
+                LessThan,
+                Partial {
+                    major: Some(major),
+                    minor: Some(minor),
+                    patch: None,
+                    ..
+                },
+            ) => BoundSet::at_most(Predicate::Excluding((major, minor, 0, 0).into())),
+            (
+                LessThan,
+                Partial {
+                    major,
+                    minor,
+                    patch,
+                    pre_release,
+                    build,
+                    ..
+                },
+            ) => BoundSet::at_most(Predicate::Excluding(Version {
+                major: major.unwrap_or(0),
+                minor: minor.unwrap_or(0),
+                patch: patch.unwrap_or(0),
+                build,
+                pre_release,
+            })),
+            (
+                LessThanEquals,
+                Partial {
+                    major,
+                    minor: None,
+                    patch: None,
+                    ..
+                },
+            ) => BoundSet::at_most(Predicate::Including(
+                (major.unwrap_or(0), MAX_SAFE_INTEGER, MAX_SAFE_INTEGER).into(),
+            )),
+            (
+                LessThanEquals,
+                Partial {
+                    major,
+                    minor,
+                    patch: None,
+                    ..
+                },
+            ) => BoundSet::at_most(Predicate::Including(
+                (major.unwrap_or(0), minor.unwrap_or(0), MAX_SAFE_INTEGER).into(),
+            )),
+            (LessThanEquals, partial) => BoundSet::at_most(Predicate::Including(partial.into())),
+            (
+                Exact,
+                Partial {
+                    major: Some(major),
+                    minor: Some(minor),
+                    patch: Some(patch),
+                    pre_release,
+                    ..
+                },
+            ) => BoundSet::exact(Version {
+                major,
+                minor,
+                patch,
+                pre_release,
+                build: vec![],
+            }),
+            (
+                Exact,
+                Partial {
+                    major: Some(major),
+                    minor: Some(minor),
+                    ..
+                },
+            ) => BoundSet::new(
+                Bound::Lower(Predicate::Including((major, minor, 0).into())),
+                Bound::Upper(Predicate::Excluding(Version {
+                    major,
+                    minor: minor + 1,
+                    patch: 0,
+                    pre_release: vec![Identifier::Numeric(0)],
+                    build: vec![],
+                })),
+            ),
+            (
+                Exact,
+                Partial {
+                    major: Some(major), ..
+                },
+            ) => BoundSet::new(
+                Bound::Lower(Predicate::Including((major, 0, 0).into())),
+                Bound::Upper(Predicate::Excluding(Version {
+                    major: major + 1,
+                    minor: 0,
+                    patch: 0,
+                    pre_release: vec![Identifier::Numeric(0)],
+                    build: vec![],
+                })),
+            ),
+            _ => None,
+        }
+}
+
+fn tilde_desugar(parsed: (Option<&str>, Partial)) -> (r: Option<BoundSet>)
+    requires wf_partial(parsed.1),
+    ensures
+        parsed.0 is None && parsed.1.major is None && parsed.1.minor is None && parsed.1.patch is None && parsed.1.pre_release@.len() == 0 ==> shape_ok_c(r, npm_tilde_c(parsed.1)),  // tilde#N.N.N
+        parsed.0 is None && parsed.1.major is None && parsed.1.minor is None && parsed.1.patch is None && parsed.1.pre_release@.len() > 0 ==> shape_ok_c(r, npm_tilde_c(parsed.1)),  // tilde#N.N.N+pre
+        parsed.0 is None && parsed.1.major is None && parsed.1.minor is None && parsed.1.patch is Some && parsed.1.pre_release@.len() == 0 ==> shape_ok_c(r, npm_tilde_c(parsed.1)),  // tilde#N.N.S
+        parsed.0 is None && parsed.1.major is None && parsed.1.minor is None && parsed.1.patch is Some && parsed.1.pre_release@.len() > 0 ==> shape_ok_c(r, npm_tilde_c(parsed.1)),  // tilde#N.N.S+pre
+        parsed.0 is None && parsed.1.major is None && parsed.1.minor is Some && parsed.1.patch is None && parsed.1.pre_release@.len() == 0 ==> shape_ok_c(r, npm_tilde_c(parsed.1)),  // tilde#N.S.N
+        parsed.0 is None && parsed.1.major is None && parsed.1.minor is Some && parsed.1.patch is None && parsed.1.pre_release@.len() > 0 ==> shape_ok_c(r, npm_tilde_c(parsed.1)),  // tilde#N.S.N+pre
+        parsed.0 is None && parsed.1.major is None && parsed.1.minor is Some && parsed.1.patch is Some && parsed.1.pre_release@.len() == 0 ==> shape_ok_c(r, npm_tilde_c(parsed.1)),  // tilde#N.S.S
+        parsed.0 is None && parsed.1.major is None && parsed.1.minor is Some && parsed.1.patch is Some && parsed.1.pre_release@.len() > 0 ==> shape_ok_c(r, npm_tilde_c(parsed.1)),  // tilde#N.S.S+pre
+        parsed.0 is None && parsed.1.major is Some && parsed.1.minor is None && parsed.1.patch is None && parsed.1.pre_release@.len() == 0 ==> shape_ok_c(r, npm_tilde_c(parsed.1)),  // tilde#S.N.N
+        parsed.0 is None && parsed.1.major is Some && parsed.1.minor is None && parsed.1.patch is None && parsed.1.pre_release@.len() > 0 ==> shape_ok_c(r, npm_tilde_c(parsed.1)),  // tilde#S.N.N+pre
+        parsed.0 is None && parsed.1.major is Some && parsed.1.minor is None && parsed.1.patch is Some && parsed.1.pre_release@.len() == 0 ==> shape_ok_c(r, npm_tilde_c(parsed.1)),  // tilde#S.N.S
+        parsed.0 is None && parsed.1.major is Some && parsed.1.minor is None && parsed.1.patch is Some && parsed.1.pre_release@.len() > 0 ==> shape_ok_c(r, npm_tilde_c(parsed.1)),  // tilde#S.N.S+pre
+        parsed.0 is None && parsed.1.major is Some && parsed.1.minor is Some && parsed.1.patch is None && parsed.1.pre_release@.len() == 0 ==> shape_ok_c(r, npm_tilde_c(parsed.1)),  // tilde#S.S.N
+        parsed.0 is None && parsed.1.major is Some && parsed.1.minor is Some && parsed.1.patch is None && parsed.1.pre_release@.len() > 0 ==> shape_ok_c(r, npm_tilde_c(parsed.1)),  // tilde#S.S.N+pre
+        parsed.0 is None && parsed.1.major is Some && parsed.1.minor is Some && parsed.1.patch is Some && parsed.1.pre_release@.len() == 0 ==> shape_ok_c(r, npm_tilde_c(parsed.1)),  // tilde#S.S.S
+        parsed.0 is None && parsed.1.major is Some && parsed.1.minor is Some && parsed.1.patch is Some && parsed.1.pre_release@.len() > 0 ==> shape_ok_c(r, npm_tilde_c(parsed.1)),  // tilde#S.S.S+pre
+        parsed.0 is Some && parsed.1.major is None && parsed.1.minor is None && parsed.1.patch is None && parsed.1.pre_release@.len() == 0 ==> shape_ok_c(r, npm_tilde_c(parsed.1)),  // tilde>#N.N.N
+        parsed.0 is Some && parsed.1.major is None && parsed.1.minor is None && parsed.1.patch is None && parsed.1.pre_release@.len() > 0 ==> shape_ok_c(r, npm_tilde_c(parsed.1)),  // tilde>#N.N.N+pre
+        parsed.0 is Some && parsed.1.major is None && parsed.1.minor is None && parsed.1.patch is Some && parsed.1.pre_release@.len() == 0 ==> shape_ok_c(r, npm_tilde_c(parsed.1)),  // tilde>#N.N.S
+        parsed.0 is Some && parsed.1.major is None && parsed.1.minor is None && parsed.1.patch is Some && parsed.1.pre_release@.len() > 0 ==> shape_ok_c(r, npm_tilde_c(parsed.1)),  // tilde>#N.N.S+pre
+        parsed.0 is Some && parsed.1.major is None && parsed.1.minor is Some && parsed.1.patch is None && parsed.1.pre_release@.len() == 0 ==> shape_ok_c(r, npm_tilde_c(parsed.1)),  // tilde>#N.S.N
+        parsed.0 is Some && parsed.1.major is None && parsed.1.minor is Some && parsed.1.patch is None && parsed.1.pre_release@.len() > 0 ==> shape_ok_c(r, npm_tilde_c(parsed.1)),  // tilde>#N.S.N+pre
+        parsed.0 is Some && parsed.1.major is None && parsed.1.minor is Some && parsed.1.patch is Some && parsed.1.pre_release@.len() == 0 ==> shape_ok_c(r, npm_tilde_c(parsed.1)),  // tilde>#N.S.S
+        parsed.0 is Some && parsed.1.major is None && parsed.1.minor is Some && parsed.1.patch is Some && parsed.1.pre_release@.len() > 0 ==> shape_ok_c(r, npm_tilde_c(parsed.1)),  // tilde>#N.S.S+pre
+        parsed.0 is Some && parsed.1.major is Some && parsed.1.minor is None && parsed.1.patch is None && parsed.1.pre_release@.len() == 0 ==> shape_ok_c(r, npm_tilde_c(parsed.1)),  // tilde>#S.N.N
+        parsed.0 is Some && parsed.1.major is Some && parsed.1.minor is None && parsed.1.patch is None && parsed.1.pre_release@.len() > 0 ==> shape_ok_c(r, npm_tilde_c(parsed.1)),  // tilde>#S.N.N+pre
+        parsed.0 is Some && parsed.1.major is Some && parsed.1.minor is None && parsed.1.patch is Some && parsed.1.pre_release@.len() == 0 ==> shape_ok_c(r, npm_tilde_c(parsed.1)),  // tilde>#S.N.S
+        parsed.0 is Some && parsed.1.major is Some && parsed.1.minor is None && parsed.1.patch is Some && parsed.1.pre_release@.len() > 0 ==> shape_ok_c(r, npm_tilde_c(parsed.1)),  // tilde>#S.N.S+pre
+        parsed.0 is Some && parsed.1.major is Some && parsed.1.minor is Some && parsed.1.patch is None && parsed.1.pre_release@.len() == 0 ==> shape_ok_c(r, npm_tilde_c(parsed.1)),  // tilde>#S.S.N
+        parsed.0 is Some && parsed.1.major is Some && parsed.1.minor is Some && parsed.1.patch is None && parsed.1.pre_release@.len() > 0 ==> shape_ok_c(r, npm_tilde_c(parsed.1)),  // tilde>#S.S.N+pre
+        parsed.0 is Some && parsed.1.major is Some && parsed.1.minor is Some && parsed.1.patch is Some && parsed.1.pre_release@.len() == 0 ==> shape_ok_c(r, npm_tilde_c(parsed.1)),  // tilde>#S.S.S
+        parsed.0 is Some && parsed.1.major is Some && parsed.1.minor is Some && parsed.1.patch is Some && parsed.1.pre_release@.len() > 0 ==> shape_ok_c(r, npm_tilde_c(parsed.1)),  // tilde>#S.S.S+pre
+{
+ broadcast use group_k_order, group_sets;
+ proof { reveal(cut_cmp);
+        assert forall|s: Seq<Identifier>| #![trigger s.len()] s.len() == 1 && s[0] == Identifier::Numeric(0) implies s == pre0() by { assert(s =~= pre0()); }
+        assert forall|s: Seq<Identifier>| #![trigger s.len()] s.len() == 0 implies s == Seq::<Identifier>::empty() by { assert(s =~= Seq::<Identifier>::empty()); }
+ }
+    match parsed {
+        (
+            Some(_gt),
+            Partial {
+                major: Some(major),
+                minor: None,
+                patch: None,
+                ..
+            },
+        ) => BoundSet::new(
+            Bound::Lower(Predicate::Including((major, 0, 0).into())),
+            Bound::Upper(Predicate::Excluding((major + 1, 0, 0, 0).into())),
+        ),
+        (
+            Some(_gt),
+            Partial {
+                major: Some(major),
+                minor: Some(minor),
+                patch,
+                pre_release,
+                ..
+            },
+        ) => BoundSet::new(
+            Bound::Lower(Predicate::Including(Version {
+                major,
+                minor,
+                patch: patch.unwrap_or(0),
+                pre_release,
+                build: vec![],
+            })),
+            Bound::Upper(Predicate::Excluding((major, minor + 1, 0, 0).into())),
+        ),
+        (
+            None,
+            Partial {
+                major: Some(major),
+                minor: Some(minor),
+                patch: Some(patch),
+                pre_release,
+                ..
+            },
+        ) => BoundSet::new(
+            Bound::Lower(Predicate::Including(Version {
+                major,
+                minor,
+                patch,
+                pre_release,
+                build: vec![],
+            })),
+            Bound::Upper(Predicate::Excluding((major, minor + 1, 0, 0).into())),
+        ),
+        (
+            None,
+            Partial {
+                major: Some(major),
+                minor: Some(minor),
+                patch: None,
+                ..
+            },
+        ) => BoundSet::new(
+            Bound::Lower(Predicate::Including((major, minor, 0).into())),
+            Bound::Upper(Predicate::Excluding((major, minor + 1, 0, 0).into())),
+        ),
+        (
+            None,
+            Partial {
+                major: Some(major),
+                minor: None,
+                patch: None,
+                ..
+            },
+        ) => BoundSet::new(
+            Bound::Lower(Predicate::Including((major, 0, 0).into())),
+            Bound::Upper(Predicate::Excluding((major + 1, 0, 0, 0).into())),
+        ),
+        _ => None,
+    }
+}
+
+fn hyphen_desugar(lower: Option<Partial>, upper: Partial) -> (r: Option<BoundSet>)
+    requires wf_partial(upper), lower matches Some(f) ==> wf_partial(f),
+    ensures
+        lower is None && upper.major is None && upper.minor is None && upper.patch is None && upper.pre_release@.len() == 0 ==> (r matches Some(bs) ==> bs_wf(bs)),  // hyphen#none-N.N.N
+        lower is None && upper.major is None && upper.minor is None && upper.patch is None && upper.pre_release@.len() > 0 ==> (r matches Some(bs) ==> bs_wf(bs)),  // hyphen#none-N.N.N+pre
+        lower is None && upper.major is None && upper.minor is None && upper.patch is Some && upper.pre_release@.len() == 0 ==> (r matches Some(bs) ==> bs_wf(bs)),  // hyphen#none-N.N.S
+        lower is None && upper.major is None && upper.minor is None && upper.patch is Some && upper.pre_release@.len() > 0 ==> (r matches Some(bs) ==> bs_wf(bs)),  // hyphen#none-N.N.S+pre
+        lower is None && upper.major is None && upper.minor is Some && upper.patch is None && upper.pre_release@.len() == 0 ==> (r matches Some(bs) ==> bs_wf(bs)),  // hyphen#none-N.S.N
+        lower is None && upper.major is None && upper.minor is Some && upper.patch is None && upper.pre_release@.len() > 0 ==> (r matches Some(bs) ==> bs_wf(bs)),  // hyphen#none-N.S.N+pre
+        lower is None && upper.major is None && upper.minor is Some && upper.patch is Some && upper.pre_release@.len() == 0 ==> (r matches Some(bs) ==> bs_wf(bs)),  // hyphen#none-N.S.S
+        lower is None && upper.major is None && upper.minor is Some && upper.patch is Some && upper.pre_release@.len() > 0 ==> (r matches Some(bs) ==> bs_wf(bs)),  // hyphen#none-N.S.S+pre
+        lower is None && upper.major is Some && upper.minor is None && upper.patch is None && upper.pre_release@.len() == 0 ==> (r matches Some(bs) ==> bs_wf(bs)),  // hyphen#none-S.N.N
+        lower is None && upper.major is Some && upper.minor is None && upper.patch is None && upper.pre_release@.len() > 0 ==> (r matches Some(bs) ==> bs_wf(bs)),  // hyphen#none-S.N.N+pre
+        lower is None && upper.major is Some && upper.minor is None && upper.patch is Some && upper.pre_release@.len() == 0 ==> (r matches Some(bs) ==> bs_wf(bs)),  // hyphen#none-S.N.S
+        lower is None && upper.major is Some && upper.minor is None && upper.patch is Some && upper.pre_release@.len() > 0 ==> (r matches Some(bs) ==> bs_wf(bs)),  // hyphen#none-S.N.S+pre
+        lower is None && upper.major is Some && upper.minor is Some && upper.patch is None && upper.pre_release@.len() == 0 ==> (r matches Some(bs) ==> bs_wf(bs)),  // hyphen#none-S.S.N
+        lower is None && upper.major is Some && upper.minor is Some && upper.patch is None && upper.pre_release@.len() > 0 ==> (r matches Some(bs) ==> bs_wf(bs)),  // hyphen#none-S.S.N+pre
+        lower is None && upper.major is Some && upper.minor is Some && upper.patch is Some && upper.pre_release@.len() == 0 ==> (r matches Some(bs) ==> bs_wf(bs)),  // hyphen#none-S.S.S
+        lower is None && upper.major is Some && upper.minor is Some && upper.patch is Some && upper.pre_release@.len() > 0 ==> (r matches Some(bs) ==> bs_wf(bs)),  // hyphen#none-S.S.S+pre
+        lower is Some && lower->0.major is None && lower->0.minor is None && lower->0.patch is None && lower->0.pre_release@.len() == 0 && xM(upper) ==> shape_ok_c(r, npm_hyphen_c(lower->0, upper)),  // hyphen#N.N.N-xM
+        lower is Some && lower->0.major is None && lower->0.minor is None && lower->0.patch is None && lower->0.pre_release@.len() == 0 && !xM(upper) && xm(upper) ==> shape_ok_c(r, npm_hyphen_c(lower->0, upper)),  // hyphen#N.N.N-xm
+        lower is Some && lower->0.major is None && lower->0.minor is None && lower->0.patch is None && lower->0.pre_release@.len() == 0 && !xm(upper) && xp(upper) ==> shape_ok_c(r, npm_hyphen_c(lower->0, upper)),  // hyphen#N.N.N-xp
+        lower is Some && lower->0.major is None && lower->0.minor is None && lower->0.patch is None && lower->0.pre_release@.len() == 0 && !xp(upper) ==> shape_ok_c(r, npm_hyphen_c(lower->0, upper)),  // hyphen#N.N.N-full
+        lower is Some && lower->0.major is None && lower->0.minor is None && lower->0.patch is None && lower->0.pre_release@.len() > 0 && xM(upper) ==> shape_ok_c(r, npm_hyphen_c(lower->0, upper)),  // hyphen#N.N.N+pre-xM
+        lower is Some && lower->0.major is None && lower->0.minor is None && lower->0.patch is None && lower->0.pre_release@.len() > 0 && !xM(upper) && xm(upper) ==> shape_ok_c(r, npm_hyphen_c(lower->0, upper)),  // hyphen#N.N.N+pre-xm
+        lower is Some && lower->0.major is None && lower->0.minor is None && lower->0.patch is None && lower->0.pre_release@.len() > 0 && !xm(upper) && xp(upper) ==> shape_ok_c(r, npm_hyphen_c(lower->0, upper)),  // hyphen#N.N.N+pre-xp
+        lower is Some && lower->0.major is None && lower->0.minor is None && lower->0.patch is None && lower->0.pre_release@.len() > 0 && !xp(upper) ==> shape_ok_c(r, npm_hyphen_c(lower->0, upper)),  // hyphen#N.N.N+pre-full
+        lower is Some && lower->0.major is None && lower->0.minor is None && lower->0.patch is Some && lower->0.pre_release@.len() == 0 && xM(upper) ==> shape_ok_c(r, npm_hyphen_c(lower->0, upper)),  // hyphen#N.N.S-xM
+        lower is Some && lower->0.major is None && lower->0.minor is None && lower->0.patch is Some && lower->0.pre_release@.len() == 0 && !xM(upper) && xm(upper) ==> shape_ok_c(r, npm_hyphen_c(lower->0, upper)),  // hyphen#N.N.S-xm
+        lower is Some && lower->0.major is None && lower->0.minor is None && lower->0.patch is Some && lower->0.pre_release@.len() == 0 && !xm(upper) && xp(upper) ==> shape_ok_c(r, npm_hyphen_c(lower->0, upper)),  // hyphen#N.N.S-xp
+        lower is Some && lower->0.major is None && lower->0.minor is None && lower->0.patch is Some && lower->0.pre_release@.len() == 0 && !xp(upper) ==> shape_ok_c(r, npm_hyphen_c(lower->0, upper)),  // hyphen#N.N.S-full
+        lower is Some && lower->0.major is None && lower->0.minor is None && lower->0.patch is Some && lower->0.pre_release@.len() > 0 && xM(upper) ==> shape_ok_c(r, npm_hyphen_c(lower->0, upper)),  // hyphen#N.N.S+pre-xM
+        lower is Some && lower->0.major is None && lower->0.minor is None && lower->0.patch is Some && lower->0.pre_release@.len() > 0 && !xM(upper) && xm(upper) ==> shape_ok_c(r, npm_hyphen_c(lower->0, upper)),  // hyphen#N.N.S+pre-xm
+        lower is Some && lower->0.major is None && lower->0.minor is None && lower->0.patch is Some && lower->0.pre_release@.len() > 0 && !xm(upper) && xp(upper) ==> shape_ok_c(r, npm_hyphen_c(lower->0, upper)),  // hyphen#N.N.S+pre-xp
+        lower is Some && lower->0.major is None && lower->0.minor is None && lower->0.patch is Some && lower->0.pre_release@.len() > 0 && !xp(upper) ==> shape_ok_c(r, npm_hyphen_c(lower->0, upper)),  // hyphen#N.N.S+pre-full
+        lower is Some && lower->0.major is None && lower->0.minor is Some && lower->0.patch is None && lower->0.pre_release@.len() == 0 && xM(upper) ==> shape_ok_c(r, npm_hyphen_c(lower->0, upper)),  // hyphen#N.S.N-xM
+        lower is Some && lower->0.major is None && lower->0.minor is Some && lower->0.patch is None && lower->0.pre_release@.len() == 0 && !xM(upper) && xm(upper) ==> shape_ok_c(r, npm_hyphen_c(lower->0, upper)),  // hyphen#N.S.N-xm
+        lower is Some && lower->0.major is None && lower->0.minor is Some && lower->0.patch is None && lower->0.pre_release@.len() == 0 && !xm(upper) && xp(upper) ==> shape_ok_c(r, npm_hyphen_c(lower->0, upper)),  // hyphen#N.S.N-xp
+        lower is Some && lower->0.major is None && lower->0.minor is Some && lower->0.patch is None && lower->0.pre_release@.len() == 0 && !xp(upper) ==> shape_ok_c(r, npm_hyphen_c(lower->0, upper)),  // hyphen#N.S.N-full
+        lower is Some && lower->0.major is None && lower->0.minor is Some && lower->0.patch is None && lower->0.pre_release@.len() > 0 && xM(upper) ==> shape_ok_c(r, npm_hyphen_c(lower->0, upper)),  // hyphen#N.S.N+pre-xM
+        lower is Some && lower->0.major is None && lower->0.minor is Some && lower->0.patch is None && lower->0.pre_release@.len() > 0 && !xM(upper) && xm(upper) ==> shape_ok_c(r, npm_hyphen_c(lower->0, upper)),  // hyphen#N.S.N+pre-xm
+        lower is Some && lower->0.major is None && lower->0.minor is Some && lower->0.patch is None && lower->0.pre_release@.len() > 0 && !xm(upper) && xp(upper) ==> shape_ok_c(r, npm_hyphen_c(lower->0, upper)),  // hyphen#N.S.N+pre-xp
+        lower is Some && lower->0.major is None && lower->0.minor is Some && lower->0.patch is None && lower->0.pre_release@.len() > 0 && !xp(upper) ==> shape_ok_c(r, npm_hyphen_c(lower->0, upper)),  // hyphen#N.S.N+pre-full
+        lower is Some && lower->0.major is None && lower->0.minor is Some && lower->0.patch is Some && lower->0.pre_release@.len() == 0 && xM(upper) ==> shape_ok_c(r, npm_hyphen_c(lower->0, upper)),  // hyphen#N.S.S-xM
+        lower is Some && lower->0.major is None && lower->0.minor is Some && lower->0.patch is Some && lower->0.pre_release@.len() == 0 && !xM(upper) && xm(upper) ==> shape_ok_c(r, npm_hyphen_c(lower->0, upper)),  // hyphen#N.S.S-xm
+        lower is Some && lower->0.major is None && lower->0.minor is Some && lower->0.patch is Some && lower->0.pre_release@.len() == 0 && !xm(upper) && xp(upper) ==> shape_ok_c(r, npm_hyphen_c(lower->0, upper)),  // hyphen#N.S.S-xp
+        lower is Some && lower->0.major is None && lower->0.minor is Some && lower->0.patch is Some && lower->0.pre_release@.len() == 0 && !xp(upper) ==> shape_ok_c(r, npm_hyphen_c(lower->0, upper)),  // hyphen#N.S.S-full
+        lower is Some && lower->0.major is None && lower->0.minor is Some && lower->0.patch is Some && lower->0.pre_release@.len() > 0 && xM(upper) ==> shape_ok_c(r, npm_hyphen_c(lower->0, upper)),  // hyphen#N.S.S+pre-xM
+        lower is Some && lower->0.major is None && lower->0.minor is Some && lower->0.patch is Some && lower->0.pre_release@.len() > 0 && !xM(upper) && xm(upper) ==> shape_ok_c(r, npm_hyphen_c(lower->0, upper)),  // hyphen#N.S.S+pre-xm
+        lower is Some && lower->0.major is None && lower->0.minor is Some && lower->0.patch is Some && lower->0.pre_release@.len() > 0 && !xm(upper) && xp(upper) ==> shape_ok_c(r, npm_hyphen_c(lower->0, upper)),  // hyphen#N.S.S+pre-xp
+        lower is Some && lower->0.major is None && lower->0.minor is Some && lower->0.patch is Some && lower->0.pre_release@.len() > 0 && !xp(upper) ==> shape_ok_c(r, npm_hyphen_c(lower->0, upper)),  // hyphen#N.S.S+pre-full
+        lower is Some && lower->0.major is Some && lower->0.minor is None && lower->0.patch is None && lower->0.pre_release@.len() == 0 && xM(upper) ==> shape_ok_c(r, npm_hyphen_c(lower->0, upper)),  // hyphen#S.N.N-xM
+        lower is Some && lower->0.major is Some && lower->0.minor is None && lower->0.patch is None && lower->0.pre_release@.len() == 0 && !xM(upper) && xm(upper) ==> shape_ok_c(r, npm_hyphen_c(lower->0, upper)),  // hyphen#S.N.N-xm
+        lower is Some && lower->0.major is Some && lower->0.minor is None && lower->0.patch is None && lower->0.pre_release@.len() == 0 && !xm(upper) && xp(upper) ==> shape_ok_c(r, npm_hyphen_c(lower->0, upper)),  // hyphen#S.N.N-xp
+        lower is Some && lower->0.major is Some && lower->0.minor is None && lower->0.patch is None && lower->0.pre_release@.len() == 0 && !xp(upper) ==> shape_ok_c(r, npm_hyphen_c(lower->0, upper)),  // hyphen#S.N.N-full
+        lower is Some && lower->0.major is Some && lower->0.minor is None && lower->0.patch is None && lower->0.pre_release@.len() > 0 && xM(upper) ==> shape_ok_c(r, npm_hyphen_c(lower->0, upper)),  // hyphen#S.N.N+pre-xM
+        lower is Some && lower->0.major is Some && lower->0.minor is None && lower->0.patch is None && lower->0.pre_release@.len() > 0 && !xM(upper) && xm(upper) ==> shape_ok_c(r, npm_hyphen_c(lower->0, upper)),  // hyphen#S.N.N+pre-xm
+        lower is Some && lower->0.major is Some && lower->0.minor is None && lower->0.patch is None && lower->0.pre_release@.len() > 0 && !xm(upper) && xp(upper) ==> shape_ok_c(r, npm_hyphen_c(lower->0, upper)),  // hyphen#S.N.N+pre-xp
+        lower is Some && lower->0.major is Some && lower->0.minor is None && lower->0.patch is None && lower->0.pre_release@.len() > 0 && !xp(upper) ==> shape_ok_c(r, npm_hyphen_c(lower->0, upper)),  // hyphen#S.N.N+pre-full
+        lower is Some && lower->0.major is Some && lower->0.minor is None && lower->0.patch is Some && lower->0.pre_release@.len() == 0 && xM(upper) ==> shape_ok_c(r, npm_hyphen_c(lower->0, upper)),  // hyphen#S.N.S-xM
+        lower is Some && lower->0.major is Some && lower->0.minor is None && lower->0.patch is Some && lower->0.pre_release@.len() == 0 && !xM(upper) && xm(upper) ==> shape_ok_c(r, npm_hyphen_c(lower->0, upper)),  // hyphen#S.N.S-xm
+        lower is Some && lower->0.major is Some && lower->0.minor is None && lower->0.patch is Some && lower->0.pre_release@.len() == 0 && !xm(upper) && xp(upper) ==> shape_ok_c(r, npm_hyphen_c(lower->0, upper)),  // hyphen#S.N.S-xp
+        lower is Some && lower->0.major is Some && lower->0.minor is None && lower->0.patch is Some && lower->0.pre_release@.len() == 0 && !xp(upper) ==> shape_ok_c(r, npm_hyphen_c(lower->0, upper)),  // hyphen#S.N.S-full
+        lower is Some && lower->0.major is Some && lower->0.minor is None && lower->0.patch is Some && lower->0.pre_release@.len() > 0 && xM(upper) ==> shape_ok_c(r, npm_hyphen_c(lower->0, upper)),  // hyphen#S.N.S+pre-xM
+        lower is Some && lower->0.major is Some && lower->0.minor is None && lower->0.patch is Some && lower->0.pre_release@.len() > 0 && !xM(upper) && xm(upper) ==> shape_ok_c(r, npm_hyphen_c(lower->0, upper)),  // hyphen#S.N.S+pre-xm
+        lower is Some && lower->0.major is Some && lower->0.minor is None && lower->0.patch is Some && lower->0.pre_release@.len() > 0 && !xm(upper) && xp(upper) ==> shape_ok_c(r, npm_hyphen_c(lower->0, upper)),  // hyphen#S.N.S+pre-xp
+        lower is Some && lower->0.major is Some && lower->0.minor is None && lower->0.patch is Some && lower->0.pre_release@.len() > 0 && !xp(upper) ==> shape_ok_c(r, npm_hyphen_c(lower->0, upper)),  // hyphen#S.N.S+pre-full
+        lower is Some && lower->0.major is Some && lower->0.minor is Some && lower->0.patch is None && lower->0.pre_release@.len() == 0 && xM(upper) ==> shape_ok_c(r, npm_hyphen_c(lower->0, upper)),  // hyphen#S.S.N-xM
+        lower is Some && lower->0.major is Some && lower->0.minor is Some && lower->0.patch is None && lower->0.pre_release@.len() == 0 && !xM(upper) && xm(upper) ==> shape_ok_c(r, npm_hyphen_c(lower->0, upper)),  // hyphen#S.S.N-xm
+        lower is Some && lower->0.major is Some && lower->0.minor is Some && lower->0.patch is None && lower->0.pre_release@.len() == 0 && !xm(upper) && xp(upper) ==> shape_ok_c(r, npm_hyphen_c(lower->0, upper)),  // hyphen#S.S.N-xp
+        lower is Some && lower->0.major is Some && lower->0.minor is Some && lower->0.patch is None && lower->0.pre_release@.len() == 0 && !xp(upper) ==> shape_ok_c(r, npm_hyphen_c(lower->0, upper)),  // hyphen#S.S.N-full
+        lower is Some && lower->0.major is Some && lower->0.minor is Some && lower->0.patch is None && lower->0.pre_release@.len() > 0 && xM(upper) ==> shape_ok_c(r, npm_hyphen_c(lower->0, upper)),  // hyphen#S.S.N+pre-xM
+        lower is Some && lower->0.major is Some && lower->0.minor is Some && lower->0.patch is None && lower->0.pre_release@.len() > 0 && !xM(upper) && xm(upper) ==> shape_ok_c(r, npm_hyphen_c(lower->0, upper)),  // hyphen#S.S.N+pre-xm
+        lower is Some && lower->0.major is Some && lower->0.minor is Some && lower->0.patch is None && lower->0.pre_release@.len() > 0 && !xm(upper) && xp(upper) ==> shape_ok_c(r, npm_hyphen_c(lower->0, upper)),  // hyphen#S.S.N+pre-xp
+        lower is Some && lower->0.major is Some && lower->0.minor is Some && lower->0.patch is None && lower->0.pre_release@.len() > 0 && !xp(upper) ==> shape_ok_c(r, npm_hyphen_c(lower->0, upper)),  // hyphen#S.S.N+pre-full
+        lower is Some && lower->0.major is Some && lower->0.minor is Some && lower->0.patch is Some && lower->0.pre_release@.len() == 0 && xM(upper) ==> shape_ok_c(r, npm_hyphen_c(lower->0, upper)),  // hyphen#S.S.S-xM
+        lower is Some && lower->0.major is Some && lower->0.minor is Some && lower->0.patch is Some && lower->0.pre_release@.len() == 0 && !xM(upper) && xm(upper) ==> shape_ok_c(r, npm_hyphen_c(lower->0, upper)),  // hyphen#S.S.S-xm
+        lower is Some && lower->0.major is Some && lower->0.minor is Some && lower->0.patch is Some && lower->0.pre_release@.len() == 0 && !xm(upper) && xp(upper) ==> shape_ok_c(r, npm_hyphen_c(lower->0, upper)),  // hyphen#S.S.S-xp
+        lower is Some && lower->0.major is Some && lower->0.minor is Some && lower->0.patch is Some && lower->0.pre_release@.len() == 0 && !xp(upper) ==> shape_ok_c(r, npm_hyphen_c(lower->0, upper)),  // hyphen#S.S.S-full
+        lower is Some && lower->0.major is Some && lower->0.minor is Some && lower->0.patch is Some && lower->0.pre_release@.len() > 0 && xM(upper) ==> shape_ok_c(r, npm_hyphen_c(lower->0, upper)),  // hyphen#S.S.S+pre-xM
+        lower is Some && lower->0.major is Some && lower->0.minor is Some && lower->0.patch is Some && lower->0.pre_release@.len() > 0 && !xM(upper) && xm(upper) ==> shape_ok_c(r, npm_hyphen_c(lower->0, upper)),  // hyphen#S.S.S+pre-xm
+        lower is Some && lower->0.major is Some && lower->0.minor is Some && lower->0.patch is Some && lower->0.pre_release@.len() > 0 && !xm(upper) && xp(upper) ==> shape_ok_c(r, npm_hyphen_c(lower->0, upper)),  // hyphen#S.S.S+pre-xp
+        lower is Some && lower->0.major is Some && lower->0.minor is Some && lower->0.patch is Some && lower->0.pre_release@.len() > 0 && !xp(upper) ==> shape_ok_c(r, npm_hyphen_c(lower->0, upper)),  // hyphen#S.S.S+pre-full
+{
+ broadcast use group_k_order, group_sets;
+ proof { reveal(cut_cmp);
+        assert forall|s: Seq<Identifier>| #![trigger s.len()] s.len() == 1 && s[0] == Identifier::Numeric(0) implies s == pre0() by { assert(s =~= pre0()); }
+        assert forall|s: Seq<Identifier>| #![trigger s.len()] s.len() == 0 implies s == Seq::<Identifier>::empty() by { assert(s =~= Seq::<Identifier>::empty()); }
+ }
+    let upper = match upper {
+            Partial {
+                major: None,
+                minor: None,
+                patch: None,
+                ..
+            } => Predicate::Excluding(Version {
+                major: 0,
+                minor: 0,
+                patch: 0,
+                pre_release: vec![Identifier::Numeric(0)],
+                build: vec![],
+            }),
+            Partial {
+                major: Some(major),
+                minor: None,
+                patch: None,
+                ..
+            } => Predicate::Excluding(Version {
+                major: major + 1,
+                minor: 0,
+                patch: 0,
+                pre_release: vec![Identifier::Numeric(0)],
+                build: vec![],
+            }),
+            Partial {
+                major: Some(major),
+                minor: Some(minor),
+                patch: None,
+                ..
+            } => Predicate::Excluding(Version {
+                major,
+                minor: minor + 1,
+                patch: 0,
+                pre_release: vec![Identifier::Numeric(0)],
+                build: vec![],
+            }),
+            partial => Predicate::Including(partial.into()),
+        };
+        let bounds = if let Some(lower) = lower {
+            BoundSet::new(
+                Bound::Lower(Predicate::Including(lower.into())),
+                Bound::Upper(upper),
+            )
+        } else {
+            BoundSet::at_most(upper)
+        };
+        
+ bounds
+}
+
+fn partial_desugar(partial: Partial) -> (r: Option<BoundSet>)
+    requires wf_partial(partial),
+    ensures
+        partial.major is None && partial.minor is None && partial.patch is None && partial.pre_release@.len() == 0 ==> shape_ok_c(r, npm_plain_c(partial)),  // plain#N.N.N
+        partial.major is None && partial.minor is None && partial.patch is None && partial.pre_release@.len() > 0 ==> shape_ok_c(r, npm_plain_c(partial)),  // plain#N.N.N+pre
+        partial.major is None && partial.minor is None && partial.patch is Some && partial.pre_release@.len() == 0 ==> shape_ok_c(r, npm_plain_c(partial)),  // plain#N.N.S
+        partial.major is None && partial.minor is None && partial.patch is Some && partial.pre_release@.len() > 0 ==> shape_ok_c(r, npm_plain_c(partial)),  // plain#N.N.S+pre
+        partial.major is None && partial.minor is Some && partial.patch is None && partial.pre_release@.len() == 0 ==> shape_ok_c(r, npm_plain_c(partial)),  // plain#N.S.N
+        partial.major is None && partial.minor is Some && partial.patch is None && partial.pre_release@.len() > 0 ==> shape_ok_c(r, npm_plain_c(partial)),  // plain#N.S.N+pre
+        partial.major is None && partial.minor is Some && partial.patch is Some && partial.pre_release@.len() == 0 ==> shape_ok_c(r, npm_plain_c(partial)),  // plain#N.S.S
+        partial.major is None && partial.minor is Some && partial.patch is Some && partial.pre_release@.len() > 0 ==> shape_ok_c(r, npm_plain_c(partial)),  // plain#N.S.S+pre
+        partial.major is Some && partial.minor is None && partial.patch is None && partial.pre_release@.len() == 0 ==> shape_ok_c(r, npm_plain_c(partial)),  // plain#S.N.N
+        partial.major is Some && partial.minor is None && partial.patch is None && partial.pre_release@.len() > 0 ==> shape_ok_c(r, npm_plain_c(partial)),  // plain#S.N.N+pre
+        partial.major is Some && partial.minor is None && partial.patch is Some && partial.pre_release@.len() == 0 ==> shape_ok_c(r, npm_plain_c(partial)),  // plain#S.N.S
+        partial.major is Some && partial.minor is None && partial.patch is Some && partial.pre_release@.len() > 0 ==> shape_ok_c(r, npm_plain_c(partial)),  // plain#S.N.S+pre
+        partial.major is Some && partial.minor is Some && partial.patch is None && partial.pre_release@.len() == 0 ==> shape_ok_c(r, npm_plain_c(partial)),  // plain#S.S.N
+        partial.major is Some && partial.minor is Some && partial.patch is None && partial.pre_release@.len() > 0 ==> shape_ok_c(r, npm_plain_c(partial)),  // plain#S.S.N+pre
+        partial.major is Some && partial.minor is Some && partial.patch is Some && partial.pre_release@.len() == 0 ==> shape_ok_c(r, npm_plain_c(partial)),  // plain#S.S.S
+        partial.major is Some && partial.minor is Some && partial.patch is Some && partial.pre_release@.len() > 0 ==> shape_ok_c(r, npm_plain_c(partial)),  // plain#S.S.S+pre
+{
+ broadcast use group_k_order, group_sets;
+ proof { reveal(cut_cmp);
+        assert forall|s: Seq<Identifier>| #![trigger s.len()] s.len() == 1 && s[0] == Identifier::Numeric(0) implies s == pre0() by { assert(s =~= pre0()); }
+        assert forall|s: Seq<Identifier>| #![trigger s.len()] s.len() == 0 implies s == Seq::<Identifier>::empty() by { assert(s =~= Seq::<Identifier>::empty()); }
+ }
+    match partial {
+        Partial { major: None, .. } => BoundSet::at_least(Predicate::Including((0, 0, 0).into())),
+        Partial {
+            major: Some(major),
+            minor: None,
+            ..
+        } => BoundSet::new(
+            Bound::Lower(Predicate::Including((major, 0, 0).into())),
+            Bound::Upper(Predicate::Excluding(Version {
+                major: major + 1,
+                minor: 0,
+                patch: 0,
+                pre_release: vec![Identifier::Numeric(0)],
+                build: vec![],
+            })),
+        ),
+        Partial {
+            major: Some(major),
+            minor: Some(minor),
+            patch: None,
+            ..
+        } => BoundSet::new(
+            Bound::Lower(Predicate::Including((major, minor, 0).into())),
+            Bound::Upper(Predicate::Excluding(Version {
+                major,
+                minor: minor + 1,
+                patch: 0,
+                pre_release: vec![Identifier::Numeric(0)],
+                build: vec![],
+            })),
+        ),
+        partial => BoundSet::exact(partial.into()),
+    }
+}
+
 
 // A10: the formatting machinery returns without panicking; nothing is assumed about its result
 pub assume_specification<'a>[ std::fmt::Formatter::<'a>::write_fmt ](f: &mut std::fmt::Formatter<'a>, args: std::fmt::Arguments<'_>) -> (r: Result<(), std::fmt::Error>);
